@@ -58,4 +58,6 @@ def run(ctx):
     S.session_fresh(ctx, L)
     ctx.rule("R-REPLY-ARMS", "CTS with a grant stores window end, sending state, immediate deadline and wakes the job thread; the end-of-message acknowledge tells the listeners and finishes the session", floor=2)
     S.reply_arms(ctx, L)
+    ctx.rule("R-BURST-BOUND", "a data packet is sent only while its index is below the packet count (strict test)", floor=1)
+    F.burst_bound(ctx, L)
     return "structural necessary conditions of C01 decided on j1939_21.py"
